@@ -387,7 +387,8 @@ def d5_agreement(facts, rep):
     for fn in facts.get(R1 + 'notify_waiters'):
         nt = calls_named(fn, ('notify',))
         rep.ob('D5', 'K10', fn, 'notify_waiters wakes by wait-context address', bool(nt), 'no monitor notify')
-    rep.floor('D5', 6, 'tag agreement')
+    bounded_queue_predicate(facts, rep, 'D5')
+    rep.floor('D5', 7, 'tag agreement + wake-up predicate')
 
 
 def d6_advertise(facts, rep, fence):
@@ -528,3 +529,32 @@ def d7_sleep_list(facts, rep):
             rep.ob('D7', 'K4', fn, 'mandatory concurrency is re-checked after the upgrade to writer', ok,
                    'the decision is taken on a state read before the lock was (re)acquired exclusively')
     rep.floor('D7', 10, 'sleep list / serializer')
+
+
+def bounded_queue_predicate(facts, rep, clause):
+    # tickets are not completed one by one: a push whose constructor throws or that is aborted consumes its ticket without a
+    # notification, a pop skips invalid entries and notifies only with the last ticket.  The wake-up predicate must therefore be
+    # downward closed: notify(T) wakes every sleeper whose ticket is <= T, never only the sleeper with ticket == T.
+    for fn in facts.get(R1 + 'notify_bounded_queue_monitor'):
+        nts = [c for c in calls_named(fn, ('notify',))]
+        found = False
+        for pos, sx, node, d in nts:
+            for a in node.get('a', []):
+                for x in fn.subtree(a):
+                    nd = fn.nodes[x]
+                    if nd.get('k') != 'ctor':
+                        continue
+                    cls = nd.get('cls')
+                    for g in facts.fns.values():
+                        if g.cls == cls and g.d.get('n', g.p.split('::')[-1]) in ('operator()',) or (g.cls == cls and g.p.endswith('::operator()')):
+                            rets = [n_ for p_, s_, n_ in g.stmt_elems(('return',)) if 'sub' in n_]
+                            for rn in rets:
+                                cmpn = g.n(g.strip(rn['sub']))
+                                if cmpn.get('k') == 'binop':
+                                    found = True
+                                    rep.ob(clause, 'K10', g, 'the bounded-queue wake-up predicate wakes all sleepers at or below the notified ticket',
+                                           cmpn['op'] in ('<=', '<'),
+                                           'the predicate compares with `%s`: a sleeper whose own ticket was consumed by an invalid entry (throwing '
+                                           'constructor, abort) or skipped by a pop is never woken' % cmpn['op'], ln=cmpn.get('ln'))
+        if not found:
+            raise AnalysisBroken('notify_bounded_queue_monitor: predicate functor with a comparison not found')
